@@ -111,6 +111,21 @@ pub mod verif {
     ) -> Vec<(DartIdType, T)> {
         super::routines::generate_intersection_data(cmap, geometry, n_cells, cell_sizes, origin).1
     }
+
+    /// Verification hook: group the intersections per edge, compute the dart associated to each
+    /// intersection and insert the new vertices in the map.
+    pub fn intersection_darts<T: CoordsFloat>(
+        cmap: &mut CMap2<T>,
+        intersection_metadata: Vec<(DartIdType, T)>,
+    ) -> Vec<DartIdType> {
+        let n_intersec = intersection_metadata.len();
+        let (edge_intersec, dart_slices) =
+            super::routines::group_intersections_per_edge(cmap, intersection_metadata);
+        let res =
+            super::routines::compute_intersection_ids(n_intersec, &edge_intersec, &dart_slices);
+        super::routines::insert_intersections(cmap, &edge_intersec, &dart_slices);
+        res
+    }
 }
 
 /// Post-processing clip operation.
